@@ -26,6 +26,10 @@ def decorate(ctx, kind, w):
     for a in w["arr"]:
         src = 0 if style == "single" else 1 if style == "chain" else rng.choice(SRC)
         arr.append({"t": a["t"], "sz": a["sz"], "src": src})
+    if kind == "trtb" and rng.random() < 0.25:
+        # packets that arrive already coloured by an upstream meter: this meter's colour depends on its buckets only
+        for a in arr:
+            a["pre"] = rng.choice(["", "green", "yellow", "red", "red"])
     sc = {"kind": kind, "cfg": cfg, "arr": arr}
     if rng.random() < 0.15:
         sc["t0"] = rng.choice([-50, -7, -1, 3, 100])      # the environment's clock does not start at 0
